@@ -13,9 +13,17 @@
 (* driver raises afterwards (a SECoP error or anything else, e.g. when the     *)
 (* hardware write of the target fails) is irrelevant for the control state:    *)
 (* the binding lets the drivers raise after the control call in some steps.    *)
+(* Faults of the hardware hook set_control_active (f): "off" - switching a     *)
+(* controller off fails during this operation, "on" - switching the new one on *)
+(* fails; exc is what the hook raises ("hardware": a SECoP error, "other": a   *)
+(* plain exception).  A controller whose switch-off failed is still in control *)
+(* of the hardware, one whose switch-on failed is not: the invariants hold     *)
+(* after EVERY step, also after a failed one (controlled_by names exactly the  *)
+(* set of controllers marked active).                                          *)
 EXTENDS Naturals, FiniteSets, TLC
 
-CONSTANTS Layouts     \* subset of {10, 20, 30, 11, 21, 22}: code 10 * n1 + n2
+CONSTANTS Layouts,    \* subset of {10, 20, 30, 11, 21, 22}: code 10 * n1 + n2
+          Excs        \* subset of {"hardware", "other"}: what a failing hook raises
 
 Ctls == {"a1", "a2", "a3", "b1", "b2"}
 Outs == {"o1", "o2"}
@@ -23,17 +31,18 @@ OutOf(c) == IF c \in {"a1", "a2", "a3"} THEN "o1" ELSE "o2"
 Num(c) == CASE c \in {"a1", "b1"} -> 1 [] c \in {"a2", "b2"} -> 2 [] c = "a3" -> 3
 
 VARIABLES lay,      \* the layout code, fixed in a behaviour
+          exc,      \* what a failing hook raises, fixed in a behaviour
           active,   \* [Ctls -> BOOLEAN]  control_active of each controller
           cby,      \* [Outs -> name]     controlled_by of each output: "self" or a controller
           foreign   \* TRUE: the control state of other nodes' modules in the process is as they left it
-cvars == <<lay, active, cby, foreign>>
+cvars == <<lay, exc, active, cby, foreign>>
 
 Size(o) == IF o = "o1" THEN lay \div 10 ELSE lay % 10
 Group(o) == {c \in Ctls : OutOf(c) = o /\ Num(c) <= Size(o)}
 Built == Group("o1") \cup Group("o2")
 BuiltOuts == {o \in Outs : Size(o) > 0}
 
-CInit == /\ lay \in Layouts
+CInit == /\ lay \in Layouts /\ exc \in Excs
          /\ active = [c \in Ctls |-> FALSE]
          /\ cby = [o \in Outs |-> "self"]
          /\ foreign = TRUE
@@ -42,13 +51,25 @@ CInit == /\ lay \in Layouts
 InControl(o, w) == /\ active' = [d \in Ctls |-> IF OutOf(d) = o THEN d = w ELSE active[d]]
                    /\ cby' = [cby EXCEPT ![o] = w]
 
-TakeOver(c) ==            \* change <c>:target / c.write_target(): c takes control of its output
-    /\ c \in Built
-    /\ InControl(OutOf(c), c) /\ UNCHANGED <<lay, foreign>>
+OthersActive(c) == {d \in Group(OutOf(c)) \ {c} : active[d]}
 
-SelfControl(o) ==         \* change <o>:target / o.write_target(): manual mode
+TakeOver(c, f) ==         \* change <c>:target / c.write_target(): c takes control of its output
+    /\ c \in Built
+    /\ CASE f = "none" -> InControl(OutOf(c), c)
+         [] f = "off"  -> \* the controller in charge cannot be switched off: it stays in charge
+                          IF OthersActive(c) # {} THEN UNCHANGED <<active, cby>> ELSE InControl(OutOf(c), c)
+         [] f = "on"   -> \* c cannot be switched on: either nothing happened at all or the previous
+                          \* controller is off already and nobody is in control
+                          IF active[c] THEN UNCHANGED <<active, cby>>
+                          ELSE UNCHANGED <<active, cby>> \/ InControl(OutOf(c), "self")
+    /\ UNCHANGED <<lay, exc, foreign>>
+
+SelfControl(o, f) ==      \* change <o>:target / o.write_target(): manual mode
     /\ o \in BuiltOuts
-    /\ InControl(o, "self") /\ UNCHANGED <<lay, foreign>>
+    /\ IF f = "off" /\ \E d \in Group(o) : active[d]
+       THEN UNCHANGED <<active, cby>>        \* the controller in charge cannot be switched off
+       ELSE InControl(o, "self")
+    /\ UNCHANGED <<lay, exc, foreign>>
 
 UpdateTarget(c) ==        \* driver of c: <its output>.update_target(c, v)
     /\ c \in Built
@@ -59,10 +80,10 @@ UpdateTarget(c) ==        \* driver of c: <its output>.update_target(c, v)
             \/ UNCHANGED <<active, cby>>
             \/ InControl(OutOf(c), c)
             \/ InControl(OutOf(c), "self")
-    /\ UNCHANGED <<lay, foreign>>
+    /\ UNCHANGED <<lay, exc, foreign>>
 
-CNext == \/ \E c \in Ctls : TakeOver(c) \/ UpdateTarget(c)
-         \/ \E o \in Outs : SelfControl(o)
+CNext == \/ \E c \in Ctls : UpdateTarget(c) \/ \E f \in {"none", "off", "on"} : TakeOver(c, f)
+         \/ \E o \in Outs, f \in {"none", "off"} : SelfControl(o, f)
 CSpec == CInit /\ [][CNext]_cvars
 
 (* ---- properties ---- *)
@@ -73,10 +94,13 @@ NamesTheActive == \A o \in Outs : /\ \A c \in Group(o) : active[c] => cby[o] = c
                                   /\ cby[o] # "self" => active[cby[o]]
 NotBuiltInactive == \A c \in Ctls \ Built : ~active[c]
 ForeignIntact == foreign
-HandOver == [][\A c \in Ctls : TakeOver(c) =>
+HandOver == [][\A c \in Ctls : TakeOver(c, "none") =>
                  /\ \A d \in Group(OutOf(c)) \ {c} : ~active'[d]
                  /\ active'[c] /\ cby'[OutOf(c)] = c]_cvars
 Same(o) == cby'[o] = cby[o] /\ \A d \in Ctls : OutOf(d) = o => active'[d] = active[d]
-Frame == [][/\ \A c \in Ctls : (TakeOver(c) \/ UpdateTarget(c)) => \A o \in Outs \ {OutOf(c)} : Same(o)
-            /\ \A p \in Outs : SelfControl(p) => \A o \in Outs \ {p} : Same(o)]_cvars
+Frame == [][/\ \A c \in Ctls : (UpdateTarget(c) \/ \E f \in {"none", "off", "on"} : TakeOver(c, f))
+                                   => \A o \in Outs \ {OutOf(c)} : Same(o)
+            /\ \A p \in Outs : (\E f \in {"none", "off"} : SelfControl(p, f)) => \A o \in Outs \ {p} : Same(o)]_cvars
+(* a controller whose switch-off failed is still marked as controlling *)
+FailedOffKeeps == [][\A c \in Ctls : (TakeOver(c, "off") /\ OthersActive(c) # {}) => active' = active]_cvars
 =============================================================================
